@@ -77,7 +77,42 @@ def simulate(repo, vc, f, fields, now, sym, in_cycle=True):
     return me.fields
 
 
+def timer_writers(chk, repo):
+    """R27.2: the time of the last confirmed position is set in two places:
+    update() when the switches confirm the coil, reset() when the operator
+    acknowledges an error.  A third writer - a hook that restarts the timer
+    when a new target arrives, say - postpones the timeout of a valve that
+    is stuck for as long as somebody keeps it busy."""
+    vc = repo.cls(V)
+    bad = []
+    n = 0
+    for ci in [vc] + [c for c in repo.subclasses(V) if c is not vc]:
+        if ci.module.name.endswith("_test"):
+            continue
+        for name, f in ci.methods.items():
+            if not isinstance(f, FUNC):
+                continue
+            for x in walk_no_nested(f):
+                if isinstance(x, ast.Attribute) and x.attr == "lastGood" \
+                        and isinstance(x.ctx, (ast.Store, ast.Del)):
+                    n += 1
+                    if name not in ("update", "reset"):
+                        bad.append((x, f"{ci.qualname}.{name}"))
+                if isinstance(x, ast.Call) and (dotted(x.func) or "") in (
+                        "setattr", "object.__setattr__") and len(
+                            x.args) >= 2 and str_const(x.args[1]) \
+                        == "lastGood" and name not in ("update", "reset"):
+                    bad.append((x, f"{ci.qualname}.{name}"))
+    chk.floor("R27.2", "stores to lastGood", n, 2)
+    chk.ob("R27.2", V, "the timer is set by update() and reset() only",
+           not bad, bad[0][0] if bad else vc.node,
+           (f"{bad[0][1]} sets lastGood: the timeout of a valve that does "
+            f"not reach its position starts again without the switches "
+            f"having confirmed anything") if bad else f"{n} stores")
+
+
 def run(chk, repo):
+    timer_writers(chk, repo)
     chk.doc("R27.1", "the coil is decided on every row of the decision "
                      "table")
     chk.doc("R27.2", "normal rows follow the target; only confirmation "
